@@ -3,6 +3,7 @@ import NutilsVerif.Proofs.C05Compress
 import NutilsVerif.Proofs.C05Merge
 import NutilsVerif.Proofs.C05Csr
 import NutilsVerif.Proofs.C05Chunks
+import NutilsVerif.Proofs.C05Strides
 import NutilsVerif.Core.Poly
 /-!
 # C05 — sparse extraction denotes exactly the dense array: property theorems
@@ -29,7 +30,9 @@ scattering the listed values into zeros reproduces the dense result.
    `Diagonalize._assparse` apply to every chunk of their operand turns the accumulated meaning of the operand's chunk
    into the tensor operation applied to it (these are cases of the structural induction `chunks_denote`).
 5. `ravel_unravel_index`, `flat_unflat`, `hornerFlat_eq_flatIdx`, `unravelLoop_eq_unflatIdx`,
-   `unflat_strictMono`: the index arithmetic (divmod round trips, row-major order = lexicographic order).
+   `unflat_strictMono`: the index arithmetic (divmod round trips, row-major order = lexicographic order);
+   `inflate_block_position`: the strides `Inflate._assparse` uses to look a block index up in the flattened
+   dofmap are the row-major strides, for dofmaps of any number of axes.
 -/
 namespace NutilsVerif.C05
 open NutilsVerif
@@ -263,6 +266,20 @@ lexicographically increasing tuples (this is why sorting the flat index sorts th
 theorem unflat_strictMono (shape : List Nat) (hs : shape ≠ []) (a b : Nat) (hab : a < b) (hb : b < shapeSize shape) :
     lexLt (unflatIdx shape a) (unflatIdx shape b) = true :=
   lexLt_unflat shape hs hab hb
+
+/-- **block position of `Inflate._assparse`**: with `strides = (1, *accumulate(dofmap.shape[:0:-1], mul))[::-1]` the position
+`Σ indices[j] * strides[j]` at which the chunk indices of the trailing `dofmap.ndim` axes are looked up in the flattened
+dofmap is the row-major position of the multi-index in the dofmap block — for every number of dofmap axes and all axis
+lengths — and there is exactly one stride per dofmap axis.  (So `flat_dofmap[pos] = dofmap[i_0, …, i_{k-1}]`: every value
+is sent to the dof that the dense `Inflate` adds it to.) -/
+theorem inflate_block_position (shape idx : List Nat) (h : inBox shape idx = true) (hs : shape ≠ []) :
+    (blockStrides shape).length = shape.length ∧
+    stridedPos idx (blockStrides shape) = flatIdx shape idx ∧
+    stridedPos idx (blockStrides shape) < shapeSize shape :=
+  ⟨blockStrides_length shape hs, stridedPos_blockStrides (inBox_length h) hs,
+    by rw [stridedPos_blockStrides (inBox_length h) hs]; exact flatIdx_lt shape idx h⟩
+
+example : blockStrides [2, 3, 4] = [12, 4, 1] ∧ stridedPos [1, 2, 3] (blockStrides [2, 3, 4]) = 23 := by decide
 
 /-! ## non-vacuity -/
 
